@@ -45,6 +45,9 @@ type Restrict struct {
 	// JBIG2 body (hostile, not necessarily decodable; no expectation is
 	// recorded for it - for checks that only walk the file)
 	HostileStreams bool
+	// LongBodies: stream bodies are at least 1024 bytes long (several buffers
+	// of the Writer and of any reader)
+	LongBodies bool
 }
 
 // Config is the drawn configuration.
@@ -538,6 +541,20 @@ func (x *exec) streamDict(lbl string) pdf.Dict {
 	return stripStreamKeys(d)
 }
 
+// body draws a stream body for the program's restrictions.
+func (x *exec) body(lbl string) []byte {
+	b := gen.Body(x.t, lbl, x.maxBody(), x.r.SafeText)
+	if x.r.LongBodies && len(b) < 1024 {
+		// extend with safe filler up to a drawn length of at least 1024
+		n := 1024 + x.t.Draw(lbl+".long", x.maxBody()-1024+1)
+		st := x.t.Sub(lbl + ".filler")
+		for len(b) < n {
+			b = append(b, 'a'+byte(st.Intn(26)))
+		}
+	}
+	return b
+}
+
 func (x *exec) maxBody() int {
 	if x.r.MaxBody > 0 {
 		return x.r.MaxBody
@@ -669,7 +686,7 @@ func (x *exec) opPutStream() {
 			return
 		}
 	}
-	body := gen.Body(x.t, lbl+".body", x.maxBody(), x.r.SafeText)
+	body := x.body(lbl + ".body")
 	snapDict := gen.Clone(dict).(pdf.Dict)
 	stm := pdf.NewStream(dict, body)
 	x.res.args = append(x.res.args, argCheck{dict, snapDict, "streamdict"})
@@ -803,7 +820,7 @@ func (x *exec) opOpenStream() {
 	dict := x.streamDict(lbl)
 	filters, names, rowBytes := drawFilters(t, lbl, x.cfg.Version)
 	wrongLen := false
-	body := gen.Body(t, lbl+".body", x.maxBody(), x.r.SafeText)
+	body := x.body(lbl + ".body")
 	if rowBytes > 0 {
 		body = body[:len(body)/rowBytes*rowBytes]
 	}
